@@ -205,8 +205,9 @@ META = {
         "otherwise an exception before any exponential); PulserData.__init__'s interaction-type branch with "
         "HamiltonianData.from_sequence stubbed; emu-mps' create_impl over solver x Lindblad noise x config noise types x "
         "Hamiltonian type x levels (the solver that runs is the one requested, DMRG refuses noise, accepted sequences get the "
-        "matching Rydberg/XY MPO on 2 or 3 levels); make_H/update_H argument validation. Noise-type rejection in "
-        "get_lindblad_operators is decided under C24, state/operator basis rejection under C12."
+        "matching Rydberg/XY MPO on 2 or 3 levels); make_H/update_H argument validation; channel-basis rejection in the adapter "
+        "(shared with C22) and noise rejection in get_lindblad_operators (hyperfine dephasing for every symbolic pair of rates, "
+        "unknown noise types, wrongly shaped effective operators; shared with C24). State/operator basis rejection is decided under C12."
     ),
     "outside": ["Pulser's own validation of sequences and channels", "more than the listed bases / noise names"],
     "assumptions": ["Pulser's basis_data (interaction_type, dim, eigenbasis) describes the sequence correctly"],
@@ -224,6 +225,20 @@ def cases(tier):
 
     for k in ("two_bases", "supported_plus_unsupported", "unknown_basis"):
         out.append(Case(f"adapter_rejects_{k}", _adapter_rejects(k), covers=[("emu_base/pulser_adapter.py", "_extract_omega_delta_phi")], bounds={"channel_bases": k}))
+    # noise the emulators cannot represent (hyperfine dephasing lives in the digital basis; unknown noise
+    # types; effective operators of the wrong shape) is refused while the jump operators are built - shared with C24
+    from harness.c24 import error_paths as _noise_rejects
+
+    for interact in ("ising", "XY"):
+        out.append(
+            Case(
+                f"noise_rejects_{interact}",
+                _noise_rejects(interact),
+                covers=[("emu_base/jump_lindblad_operators.py", "get_lindblad_operators"), ("emu_base/pulser_adapter.py", "_get_all_lindblad_noise_operators")],
+                bounds={"interact_type": interact, "dim": [2, 3], "rates": "symbolic >= 0 (zero included)"},
+                canaries=["hyperfine_accepted"],
+            )
+        )
     if tier != "quick":
         out.append(Case("sv_decision_table_n1", sv_decision_table(1), covers=COVERS, bounds={"atoms": 1}, canaries=["xy_is_fine"]))
         out.append(Case("mps_solver_selection_n3", mps_solver_selection(3), covers=COVERS, bounds={"atoms": 3}, canaries=["dmrg_ignores_noise"], weight=300, deadline_s=1800))
